@@ -204,7 +204,9 @@ def run(ctx):
     # no hidden state: what this property is about keeps nothing at module level between calls (memo tables keyed by less than
     # the value depends on, caches of the outside world, counters) -- a verdict on one call must hold for every later call
     from .. import rules as _rules
-    _rules.check_hidden_state(ctx, 'C05.6', ['bits.utils.compact_size_uint', 'bits.utils.parse_compact_size_uint', 'bits.tx.txin', 'bits.tx.txout', 'bits.tx.txin_deser', 'bits.tx.txout_deser'])
+    _rules.check_hidden_state(ctx, 'C05.6', ['bits.utils.compact_size_uint', 'bits.utils.parse_compact_size_uint', 'bits.tx.txin', 'bits.tx.txout', 'bits.tx.txin_deser', 'bits.tx.txout_deser',
+                                              'bits.tx.tx', 'bits.tx.tx_deser', 'bits.tx.outpoint', 'bits.script.utils.script', 'bits.script.utils.decode_script',
+                                              'bits.blockchain.block_ser', 'bits.blockchain.block_deser'])
     check_writer(ctx)
     check_reader(ctx)
     check_writers_layout(ctx)
